@@ -25,7 +25,7 @@ ASSUMPTIONS = ['relative tolerance 1e-9, absolute 1e-12 x output scale, NaN == N
                'string-valued fields (labels such as buy/sell) are not judged on series with systematic ties (alternating, flat, lattice)']
 MIN_OBS = {'indicators_compared': 150, 'comparisons': 2500, 'field_comparisons': 4000, 'repeatability_probes': 150}
 SHARD_TIMEOUT = 2400
-TIE_PRONE = ('alternating', 'flat', 'lattice', 'constant')
+TIE_PRONE = ('alternating', 'flat', 'lattice', 'constant', 'flattail')
 JOB_TIMEOUT = 900
 
 
@@ -88,6 +88,8 @@ def run_job(job):
                 order = kw.get('order', 3) if name == 'minmax' else 0
                 # (short prefixes too: inputs shorter than an indicator's own look-back take separate code paths)
                 ks = {7, 23, 45, max(70, n // 3), n // 2 + 1, n - 1, n - max(order, 1) - 1}
+                if pi == 0 or kind == job['kinds'][0]:
+                    ks |= {1, 2, 3, 5, 12}
                 # prefixes that END on a candle tying with its predecessor (or without a trade): a rule that settles such a
                 # candle from its successor shows only there
                 sp = [t for t in indlib.special_positions(X) if 8 <= t < n - 2]
@@ -102,7 +104,18 @@ def run_job(job):
                         continue
                     try:
                         pre = indlib.fields(indlib.call(name, f, sig, X[:k].copy(), kw, True, X2[:k].copy()))
-                    except Exception:
+                    except Exception as ex:
+                        if type(ex).__name__ == 'IndexError' and str(ex) == 'index is out of bounds':
+                            # the message of numba's bounds checker (NUMBA_BOUNDSCHECK=1 in these workers): without the
+                            # checker the compiled loop reads or writes memory outside its arrays on this prefix - the value
+                            # then depends on whatever lies there (or the interpreter dies), not on candles 0..i
+                            cnt['kernel_out_of_bounds_on_prefix'] = cnt.get('kernel_out_of_bounds_on_prefix', 0) + 1
+                            k_ = f'kernel_index_out_of_bounds:{name}'
+                            if k_ not in seen_keys:
+                                seen_keys.add(k_)
+                                viol.append({'key': k_, 'msg': f'{name}({kw}) on the first {k} candles of a {kind} series: a compiled '
+                                                                f'loop indexes outside its arrays ({ex!r} under the bounds checker)',
+                                             'witness': {'indicator': name, 'params': kw, 'series': kind, 'n': n, 'prefix': k}})
                         cnt['prefix_raises_skipped'] = cnt.get('prefix_raises_skipped', 0) + 1
                         continue
                     cnt['comparisons'] = cnt.get('comparisons', 0) + 1
